@@ -25,6 +25,8 @@ WATCH_FILES = ("ak/color.py",)
 REQUIRED_PROBES = ("ops_done", "handles_checked", "alias_ops", "inplace_on_shared", "faults_fired",
                    "slice_ops", "format_ops", "eq_checks", "multi_chunk_objects")
 
+REAL_VS_STUB = {'real': ['ak.color: CHText, CHText.Chunk, ColorFmt'], 'stub': ['nothing; operands whose __str__ raises are harness objects (fault injection)']}
+
 RULE = ("each run = 10-40 seeded operations by 2-3 holders over <= 8 shared handles (construct from str/chunk/handle/nested "
         "list parts, +, reflected +, in-place +=, join, index, slice with positive/negative/None/out-of-range bounds, "
         "fixed_len, format with fill/align/width, ==, alias, copy, drop) with 2-4 colours per run and injected conversion "
